@@ -41,13 +41,20 @@ BaseVec(nn, S) == [i \in 1..nn |-> IF i \in S THEN Ok(i) ELSE None]
 RECURSIVE VecWith(_, _, _)
 VecWith(nn, ps, k) ==
   IF k = 0 THEN ps
-  ELSE ps \cup VecWith(nn, {[p EXCEPT ![i] = a] : p \in ps, i \in 1..nn, a \in UNION {SlotAnomalies(nn, j) : j \in 1..nn}}, k - 1)
+  ELSE ps \cup VecWith(nn, UNION {{[p EXCEPT ![i] = a] : i \in (1..Len(p)) \cap (1..nn), a \in UNION {SlotAnomalies(nn, j) : j \in 1..nn}} : p \in ps}, k - 1)
 \* (a part whose signer is another validator j is the "wrong index" case; for nn = 1 it degenerates to a valid part)
-CanonVecs(nn) == UNION {VecWith(nn, {BaseVec(nn, S)}, IF nn \in Ns2 THEN MaxAnom + 1 ELSE MaxAnom) : S \in SUBSET (1..nn)}
+\* proofs decoded from bytes with a width other than the number of validators: every subset of own-index
+\* signatures in a vector of 0..nn-1 slots (with anomalies for the sizes in Ns2), and in a vector of nn+1 slots
+\* whose extra slot is empty or holds a signature of a validator or of a stranger
+ShortBase(nn) == UNION {{[i \in 1..w |-> IF i \in S THEN Ok(i) ELSE None] : S \in SUBSET (1..w)} : w \in 0..(nn - 1)}
+ShortVecs(nn) == IF nn \in Ns2 THEN VecWith(nn, ShortBase(nn), MaxAnom) ELSE ShortBase(nn)
+LongVecs(nn) == {[i \in 1..(nn + 1) |-> IF i <= nn THEN (IF i \in S THEN Ok(i) ELSE None) ELSE e] :
+                     S \in SUBSET (1..nn), e \in {None, Ok(1), Ok(0)}}
+CanonVecs(nn) == ShortVecs(nn) \cup LongVecs(nn) \cup UNION {VecWith(nn, {BaseVec(nn, S)}, IF nn \in Ns2 THEN MaxAnom + 1 ELSE MaxAnom) : S \in SUBSET (1..nn)}
 
 GenInit ==
   /\ n \in Ns /\ done = FALSE /\ hist = <<>>
-  /\ IF Family = "walk" THEN cert = <<>> /\ proof = [i \in 1..n |-> None]
+  /\ IF Family = "walk" THEN cert = <<>> /\ proof \in {[i \in 1..w |-> None] : w \in (IF Form = "vector" THEN Widths(n) ELSE {n})}
      ELSE IF Form = "list"
           THEN /\ proof = [i \in 1..n |-> None]
                /\ cert \in CanonLists(n) \cup (IF n \in NsPerm THEN PermLists(n) ELSE {})
@@ -56,7 +63,7 @@ Done == /\ done /\ Len(hist) = 1
         /\ PrintT(<<"B", ToJson(hist)>>)
         /\ hist' = Append(hist, [op |-> "done"]) /\ UNCHANGED <<n, cert, proof, done>>
 GenNext == \/ Family = "walk" /\ Form = "list" /\ \E s \in Sig(n) : AppendItem(s)
-           \/ Family = "walk" /\ Form = "vector" /\ \E i \in 1..n, s \in Sig(n) : AddPart(i, s)
+           \/ Family = "walk" /\ Form = "vector" /\ \E i \in 1..(n + MaxOver), s \in Sig(n) : AddPart(i, s)
            \/ Form = "list" /\ VerifyList
            \/ Form = "vector" /\ VerifyProof
            \/ Form = "part" /\ \E i \in 0..(n + 1), s \in Sig(n) : VerifyPart(i, s)
